@@ -247,9 +247,10 @@ def modal_args(S, *, wide=True, binary=(AND, OR, MC), paired_max=1):
     return out
 
 def fo_args(S, *, ident=True, wide=True):
-    """FO fragment: deep (closed sentences of weight <= S over F,G unary / R binary, constants a,b);
+    """FO fragment: deep (closed sentences of weight <= S over F,G unary, constant a);
     paired over quantifier-depth-1 sentences and literals; wide two-premise shapes in BOTH constant
-    orders (constants are never canonicalised)."""
+    orders (constants are never canonicalised); three-premise freshness shapes.
+    wide='small' uses reduced pools (quick tier)."""
     seen = set()
     out = []
     def add(ar):
@@ -257,8 +258,10 @@ def fo_args(S, *, ident=True, wide=True):
         if k not in seen:
             seen.add(k)
             out.append(ar)
+    small_mode = wide == 'small'
     for k in range(1, S + 1):
-        for s in fo_sentences((NEG,), (AND, OR, MC), k, consts=(a,), preds=(F, G) if k < 3 else (F,), vars=(x, y) if k < 3 else (x,)):
+        two = k < 3 and not (small_mode and k == 2)
+        for s in fo_sentences((NEG,), (AND, OR, MC), k, consts=(a,), preds=(F, G) if two else (F,), vars=(x, y) if k < 3 else (x,)):
             if s.quantifiers:
                 add(arg(s))
     q1 = [s for s in fo_sentences((NEG,), (), 1, consts=(), preds=(F,), vars=(x,))]          # VxFx SxFx
@@ -271,16 +274,21 @@ def fo_args(S, *, ident=True, wide=True):
             if p.quantifiers or q.quantifiers:
                 add(arg(q, (p,)))
     if wide:
-        pool = lits + q1 + [~s for s in q1]
+        if small_mode:
+            pool = [lits[0], lits[1], lits[4], lits[5], lits[3]] + q1 + [~q1[1]]
+            concl = [A, Predicated(F, (b,)), q1[1]]
+        else:
+            pool = lits + q1 + [~s for s in q1]
+            concl = [A, Predicated(F, (a,)), Predicated(F, (b,)), Predicated(G, (b,))] + q1
         if ident:
-            pool += [Predicated(IDENT, (a, b)), Predicated(IDENT, (b, a))]
-        concl = [A, Predicated(F, (a,)), Predicated(F, (b,)), Predicated(G, (b,))] + q1
+            pool = pool + [Predicated(IDENT, (a, b)), Predicated(IDENT, (b, a))]
         for p, q in itertools.permutations(pool, 2):
             for r in concl:
                 if p.quantifiers or q.quantifiers or r.quantifiers or IDENT in (p.predicates | q.predicates):
                     add(arg(r, (p, q)))
         # three premises, witnesses after out-of-order constants (freshness shapes)
-        for l1, l2 in itertools.permutations(lits, 2):
+        l3 = lits if not small_mode else [lits[0], lits[1], lits[3], lits[5], lits[6]]
+        for l1, l2 in itertools.permutations(l3, 2):
             for q in q1:
                 add(arg(A, (l1, l2, q)))
     return out
